@@ -130,6 +130,10 @@ type Run struct {
 	TmpDir  string
 	ExtraNotes  []string
 	Bounded     []BoundedResult
+	// C05 bounded order stand-in: failing schema descriptors, family size
+	OrderFailing []string
+	OrderTotal   int
+	OrderRan     bool
 	SchemaCount int
 }
 
@@ -241,6 +245,14 @@ func verifyRun(opts *RunOpts) (*Run, error) {
 			run.ExtraNotes = append(run.ExtraNotes, "bounded stand-in did not run: "+err.Error())
 		}
 		run.Bounded = br
+	}
+	if opts.Prop == "C05" {
+		f, total, err := runBoundedOrder(opts)
+		if err != nil {
+			run.ExtraNotes = append(run.ExtraNotes, "bounded order stand-in did not run: "+err.Error())
+		} else {
+			run.OrderFailing, run.OrderTotal, run.OrderRan = f, total, true
+		}
 	}
 	if opts.Prop == "C11" {
 		reps := 16
